@@ -90,6 +90,10 @@ pub fn messages() -> Vec<Msg> {
         add(Codec::HttpResp, "200", b"HTTP/1.1 200 OK\r\n\r\n".to_vec(), t);
         add(Codec::HttpResp, "200-hdr", b"HTTP/1.1 200 Connection established\r\nSession-Id: 7\r\n\r\n".to_vec(), t);
         add(Codec::HttpResp, "503-lf", b"HTTP/1.0 503 no\nA: b\n\n".to_vec(), t);
+        // characters of more than one byte: a segment boundary may fall inside one
+        add(Codec::HttpReq, "connect-utf8", "CONNECT a.b:80 HTTP/1.1\r\nX-Note: caf\u{e9} \u{20ac}5 \u{1f600}\r\n\r\n".as_bytes().to_vec(), t);
+        add(Codec::HttpResp, "200-utf8", "HTTP/1.1 200 \u{2713} gr\u{fc}n\r\nServer: pr\u{fc}fstand\r\n\r\n".as_bytes().to_vec(), t);
+        add(Codec::SocksReqNoAuth, "v5-domain-utf8", [&[5u8, 1, 0, 5, 1, 0, 3, 11][..], "b\u{fc}cher.\u{4f8b}".as_bytes(), &[1, 187]].concat(), t);
         // SOCKS4 / 4a
         add(Codec::SocksReqNoAuth, "v4", vec![4, 1, 0, 80, 1, 2, 3, 4, b'u', b's', 0], t);
         add(Codec::SocksReqNoAuth, "v4-emptyid", vec![4, 1, 0, 80, 1, 2, 3, 4, 0], t);
